@@ -157,6 +157,41 @@ def reads(chk, prog, cfg):
         chk.ob("R4.body_len", fn, "body buffer length <- parse(headers.get(Content-Length))", from_cl and parsed,
                f"the body buffer is sized by {n}", where=b.where(blk), cfg=cfg)
     chk.floor(f"body read site [{cfg}]", found, 1)
+    body_iff_content_length(chk, prog, cfg, b, fn)
+
+
+def body_iff_content_length(chk, prog, cfg, b, fn, rule="R4.body_iff_cl"):
+    """The body is read exactly when a Content-Length field is present: after the header block, the only decisions on the way to
+    the body read are the presence of Content-Length and error propagation (not the method, not another header)."""
+    reads = []
+    for blk, t in b.calls_to(r"read_exact$"):
+        buf = describe(prog, b, t["args"][1])
+        if [c for c in desc_calls(buf) if c[1].endswith("vec::from_elem") or "with_capacity" in c[1] or c[1].endswith("::resize")]:
+            reads.append(blk)
+    anchors = [blk for blk, t in b.calls_to(r"Address::from_headers$")]
+    if not reads or not anchors:
+        chk.ob(rule, fn, "body read / header-block end located", False, f"reads={reads} anchors={anchors}", cfg=cfg)
+        return
+    after = b.reachable(anchors)
+    for r in reads:
+        odd = []
+        cl = False
+        for s_, lab, d, info in core.guards_dominating(prog, b, r):
+            if s_ not in after:
+                continue
+            calls = [c[1] for c in desc_calls(d)]
+            pure_cl = lab == "Some" and any(c.endswith("Headers::get") for c in calls) and \
+                desc_contains(d, lambda y: y[0] == "call" and y[1].endswith("Headers::get") and any(core.is_variant(a, "HeaderType", "ContentLength") for a in y[2])) and \
+                all(core.re.search(r"Headers::(get|new)$|(::|>::)(deref|as_ref|as_str|borrow|clone|into|from)$", c) for c in calls)
+            if pure_cl:
+                cl = True
+            elif lab in ("Continue", "Ok"):
+                continue            # `?` on the address / length parse: error propagation
+            else:
+                odd.append(f"{lab}: {core.short(str(d))[:90]}")
+        chk.ob(rule, fn, "the body is read exactly when headers.get(Content-Length) is Some (nothing else decides it)", cl and not odd,
+               f"Content-Length presence tested directly: {cl}; other deciding conditions: {odd}: bytes of a body the parser does not read are taken for the next request",
+               where=b.where(r), cfg=cfg)
 
 
 def describe_short(prog, b, t):
